@@ -7,6 +7,6 @@ W=$(mktemp -d /tmp/tryseed.XXXXXX); rmdir "$W"
 git -C /repo worktree add --detach "$W" HEAD >/dev/null 2>&1 || exit 2
 trap 'git -C /repo worktree remove --force "$W" >/dev/null 2>&1; rm -rf "$W"' EXIT
 git -C "$W" apply "$S/patch.diff" 2>/dev/null || git -C "$W" apply -C1 "$S/patch.diff" 2>/dev/null || git -C "$W" apply -3 "$S/patch.diff" || exit 2
-VERIF_REPO="$W" /verif/bin/vcheck $P --no-evidence "$@"; rc=$?
+VERIF_REPO="$W" VERIF_STOP_AT_FIRST=1 /verif/bin/vcheck $P --no-evidence "$@"; rc=$?
 echo "try_seed_wt: $P on $(basename $S): exit=$rc"
 exit $rc
